@@ -131,6 +131,15 @@ ValueScaled(s, shift) ==
            v == Scaled(M, E - Len(p.fp) + shift) IN
        IF v = NA THEN NA ELSE IF p.sign = MINUS THEN -v ELSE v
 
+\* the value of a lax integer certainly exceeds 32 bits: at least 11 significant digits
+\* (value >= 10^10 > 2^31); such a string cannot be converted to an int
+TooBigForInt(s) ==
+  LET p  == Parts(s)
+      md == StripZeros(p.ip)
+      xd == StripZeros(p.ed) IN
+  /\ LaxInteger(s) /\ md # <<>>
+  /\ (Len(xd) > 2 \/ Len(md) + NumOf(xd) > 10)
+
 Value6(s)   == ValueScaled(s, 6)     \* value * 10^6  (fixed-point grid used for doubles)
 IntValue(s) == ValueScaled(s, 0)     \* exact integer value
 
@@ -170,6 +179,8 @@ ValueLemma ==
   /\ IntValue(<<MINUS, 1, 2, 3, SCI, 6>>) = -123000000
   /\ IntValue(<<3, SCI, 9>>) = NA
   /\ IntValue(<<0, SCI, 9, 9>>) = 0
+  /\ TooBigForInt(<<1, 8, 4, 4, 6, 7, 4, 4, 0, 7, 3, SCI, 1>>) /\ TooBigForInt(<<1, SCI, 1, 0>>) /\ TooBigForInt(<<MINUS, 3, SCI, 1, 2, 3>>)
+  /\ ~TooBigForInt(<<2, 1, 4, 7, 4, 8, 3, 6, 4, 8>>) /\ ~TooBigForInt(<<0, SCI, 9, 9>>) /\ ~TooBigForInt(<<0, 0, 0, 0, 0, 0, 0, 0, 0, 0, 0, 7>>)
   /\ Value6(<<DEC, 5>>) = 500000
   /\ Value6(<<1, DEC>>) = 1000000
 =============================================================================
